@@ -240,7 +240,7 @@ func Materialize(root string, tree []FNode) error {
 			continue
 		}
 		if n.Mode != 0 {
-			if err := os.Chmod(p, os.FileMode(n.Mode)); err != nil {
+			if err := os.Chmod(p, goMode(n.Mode)); err != nil {
 				return err
 			}
 		}
@@ -252,6 +252,21 @@ func Materialize(root string, tree []FNode) error {
 		}
 	}
 	return nil
+}
+
+// goMode converts a Unix mode (permission bits plus 04000/02000/01000) into Go's os.FileMode.
+func goMode(m uint32) os.FileMode {
+	fm := os.FileMode(m & 0o777)
+	if m&0o4000 != 0 {
+		fm |= os.ModeSetuid
+	}
+	if m&0o2000 != 0 {
+		fm |= os.ModeSetgid
+	}
+	if m&0o1000 != 0 {
+		fm |= os.ModeSticky
+	}
+	return fm
 }
 
 func (c *BuildCase) srcPath(root, rel string) string {
